@@ -240,6 +240,8 @@ def run_mc(ctx, cfg, workers):
     if not res.ok:
         # a counterexample on the evaluator itself is a design problem of the spec, never a VIOLATION
         raise InfraError("spec-level counterexample / failure in %s: %s\n%s" % (cfg, res.summary(), common.tail(res.out, 30)))
+    if res.distinct < 5000:     # every config is a product of >= 10^4 rows: fewer means the domain collapsed
+        raise InfraError("vacuity guard: %s explored only %d states" % (cfg, res.distinct))
     return res
 
 
